@@ -219,8 +219,10 @@ inline std::string DeathKindFromStderr(const std::string& err, int status) {
 }
 
 // a single run (or a single replayed plan) that does not finish within this many seconds is reported as a fault ("timeout")
+inline int& WatchdogFd() { static int fd = -1; return fd; }
 inline void OnAlarm(int) {
   const char* tag = TimeoutTag(); char buf[160]; size_t n = 0;
+  if (WatchdogFd() >= 0) { char w[120]; size_t m = 0; w[m++] = 'W'; w[m++] = ' '; for (const char* p = tag; *p && m < 100; ++p) w[m++] = *p; w[m++] = '\n'; (void)!write(WatchdogFd(), w, m); }
   for (const char* p = "VERIF-TIMEOUT: "; *p; ++p) buf[n++] = *p;
   for (const char* p = tag; *p && n < 150; ++p) buf[n++] = *p;
   buf[n++] = '\n'; (void)!write(2, buf, n); _exit(79);
@@ -228,7 +230,7 @@ inline void OnAlarm(int) {
 inline void ArmWatchdog(unsigned secs) {   // CPU time of this process (user+sys), far less load-dependent than wall time
   struct itimerval tv{}; tv.it_value.tv_sec = secs; setitimer(ITIMER_PROF, &tv, nullptr);
 }
-inline unsigned RunTimeoutSecs() { static const unsigned v = [] { const char* s = getenv("VERIF_RUN_TIMEOUT"); return s ? static_cast<unsigned>(atoi(s)) : 25u; }(); return v; }
+inline unsigned RunTimeoutSecs() { static const unsigned v = [] { const char* s = getenv("VERIF_RUN_TIMEOUT"); return s ? static_cast<unsigned>(atoi(s)) : 12u; }(); return v; }
 
 struct ForkResult {
   Outcome out;
@@ -495,7 +497,8 @@ int Main(int argc, char** argv, Engine& e) {
   uint64_t runsDone = 0, nontrivialRuns = 0, stepsDone = 0;
   std::vector<std::pair<uint64_t, std::string>> pendingViolations;   // (run, class) first unknown violation reported by workers
   std::vector<uint64_t> crashedRuns;
-  std::set<uint64_t> watchdogRuns;   // runs whose worker was stopped by the CPU-time watchdog (may not reproduce exactly at the threshold)
+  std::set<uint64_t> watchdogRuns;
+  std::map<uint64_t, std::string> watchdogTag;   // state tag reported by the watchdog handler of the worker   // runs whose worker was stopped by the CPU-time watchdog (may not reproduce exactly at the threshold)
   bool stopEarly = false;
 
   auto spawn = [&](int w, uint64_t startRun, WorkerCtl& ctl) {
@@ -508,7 +511,7 @@ int Main(int argc, char** argv, Engine& e) {
       // workers are quiet on stderr unless tracing (sanitizer reports are re-captured by the parent's forked re-run)
       if (!a.trace) { int dn = open("/dev/null", O_WRONLY); if (dn >= 0) { dup2(dn, 2); close(dn); } }
       RunIO io{ pfd[1] };
-      signal(SIGPROF, OnAlarm);
+      signal(SIGPROF, OnAlarm); WatchdogFd() = pfd[1];
       Stats st; std::vector<uint64_t> stv, grv;
       std::unordered_set<uint64_t> states, grams, seqs;
       const size_t cap = 1500000;
@@ -540,9 +543,22 @@ int Main(int argc, char** argv, Engine& e) {
           io.Line("V " + v.dump(-1, ' ', false, json::error_handler_t::replace));
         }
       };
+      int flushSeq = 0;
+      auto flush = [&](bool final) {
+        const std::string base = paths.Tmp() + "/" + tag + ".w" + std::to_string(w) + "." + std::to_string(getpid()) + "." + std::to_string(flushSeq++);
+        SpillSet(base + ".states", states); SpillSet(base + ".grams", grams); SpillSet(base + ".seqs", seqs);
+        json s; s["stats"] = st.c; s["nontrivial"] = nNontrivial; s["runs"] = nRuns; s["steps"] = nSteps; s["spill"] = base; s["final"] = final;
+        json sm = json::array();
+        if (final) for (auto* x : { &sShort, &sLong, &sFault }) if (x->set) sm.push_back(x->plan);
+        s["samples"] = sm;
+        io.Line("S " + s.dump(-1, ' ', false, json::error_handler_t::replace));
+        st.c.clear(); states.clear(); grams.clear(); seqs.clear(); nNontrivial = 0; nRuns = 0; nSteps = 0;
+      };
+      uint64_t sinceFlush = 0;
       for (uint64_t r = startRun; r < a.firstRun + totalRuns; r += static_cast<uint64_t>(W)) {
         if (NowS() - t0 > maxSecs) break;
         oneRun(r, false);
+        if (++sinceFlush >= 100) { flush(false); sinceFlush = 0; }
       }
       // determinism re-check: re-execute a 2 % sample of the neighbour worker's runs in this process
       if (W > 1 && startRun < a.firstRun + static_cast<uint64_t>(W)) {
@@ -554,13 +570,7 @@ int Main(int argc, char** argv, Engine& e) {
           oneRun(r, true);
         }
       }
-      const std::string base = paths.Tmp() + "/" + tag + ".w" + std::to_string(w) + "." + std::to_string(getpid());
-      SpillSet(base + ".states", states); SpillSet(base + ".grams", grams); SpillSet(base + ".seqs", seqs);
-      json s; s["stats"] = st.c; s["nontrivial"] = nNontrivial; s["runs"] = nRuns; s["steps"] = nSteps; s["spill"] = base;
-      json sm = json::array();
-      for (auto* x : { &sShort, &sLong, &sFault }) if (x->set) sm.push_back(x->plan);
-      s["samples"] = sm;
-      io.Line("S " + s.dump(-1, ' ', false, json::error_handler_t::replace));
+      flush(true);
       _exit(0);
     }
     close(pfd[1]);
@@ -579,6 +589,8 @@ int Main(int argc, char** argv, Engine& e) {
     else if (t == 'E') {
       uint64_t r, h; int st; if (sscanf(rest.c_str(), "%" SCNu64 " %" SCNu64 " %d", &r, &h, &st) == 3) { runHash[r] = h; }
       ctl.current = -1;
+    } else if (t == 'W') {
+      if (ctl.current >= 0) watchdogTag[static_cast<uint64_t>(ctl.current)] = rest;
     } else if (t == 'C') {
       uint64_t r, h; if (sscanf(rest.c_str(), "%" SCNu64 " %" SCNu64, &r, &h) == 2) recheckHash[r] = h;
     } else if (t == 'V') {
@@ -597,7 +609,7 @@ int Main(int argc, char** argv, Engine& e) {
         const std::string base = s["spill"];
         LoadSetInto(base + ".states", allStates, capAll); LoadSetInto(base + ".grams", allGrams, capAll); LoadSetInto(base + ".seqs", allSeqs, capAll);
         for (auto& x : s["samples"]) samples.push_back(x);
-        ctl.done = true;
+        if (s.value("final", true)) ctl.done = true;
       } catch (const std::exception& ex) { fprintf(stderr, "bad stats line from worker %d: %s\n", w, ex.what()); }
     }
   };
@@ -650,6 +662,12 @@ int Main(int argc, char** argv, Engine& e) {
   std::set<std::string> reportedClasses;
   uint64_t machineryFaults = 0;
   auto triage = [&](uint64_t run, bool expectCrash) {
+    if (expectCrash && watchdogTag.count(run)) {
+      // a run stopped by the watchdog in a known slow state class is classified from the tag without re-executing it
+      Violation v{ e.CrashProperty(a.focus, Op{}), "fault", "?/timeout:" + watchdogTag[run], "watchdog", -1 };
+      if (v.property != a.focus) { metOther[v.Class()]++; metOther["example_run:" + v.Class()] = run; return; }
+      if (auto k = MatchOpen(kf, v)) { kfHit.insert(k->id); total.Add("known." + k->id); return; }
+    }
     Plan p = MakePlan(e, a, run, kf);
     auto fr = RunForked(e, p, true, paths);
     if (fr.out.kind == Outcome::OK) {
@@ -659,7 +677,7 @@ int Main(int argc, char** argv, Engine& e) {
       return;
     }
     const Violation v0 = fr.out.v;
-    if (v0.property != a.focus) { metOther[v0.Class()]++; return; }
+    if (v0.property != a.focus) { metOther[v0.Class()]++; metOther["example_run:" + v0.Class()] = run; return; }
     if (auto k = MatchOpen(kf, v0)) { kfHit.insert(k->id); total.Add("known." + k->id); return; }
     if (reportedClasses.count(v0.Class())) return;
     reportedClasses.insert(v0.Class());
